@@ -613,7 +613,19 @@ func c07DecoderLimits(c *Ctx) {
 	}
 	vals := map[string]int64{}
 	found := false
-	allInstrs(f, func(in ssa.Instruction) {
+	// the options literal may be built by a helper of the package (`newDecMode()`)
+	var scan []*ssa.Function
+	for _, g := range p.sortedFuncs() {
+		if pkgRelOf(g) == "encoder" && len(g.Blocks) > 0 && !strings.HasSuffix(p.Pos(fnPos(g)), "_test.go") {
+			scan = append(scan, g)
+		}
+	}
+	each := func(visit func(ssa.Instruction)) {
+		for _, g := range scan {
+			allInstrs(g, visit)
+		}
+	}
+	each(func(in ssa.Instruction) {
 		st, ok := in.(*ssa.Store)
 		if !ok {
 			return
